@@ -1,6 +1,7 @@
 package vm
 
 import (
+	"strings"
 	"go/types"
 	"sort"
 
@@ -27,6 +28,8 @@ func (vm *VM) emit(kind string, v Value) {
 		vm.stdout = append(vm.stdout, v)
 	case "stderr":
 		vm.stderr = append(vm.stderr, v)
+	case "builder":
+		vm.intrinsics["(*strings.Builder).WriteString"](vm, nil, []Value{vm.curBuilder, v})
 	default:
 		vmErr("write to an unknown file object")
 	}
@@ -213,6 +216,10 @@ func registerEnv(vm *VM) {
 		ifc, ok := w.(Iface)
 		if !ok || ifc.T == nil {
 			vmErr("fmt.Fprint* to a nil writer")
+		}
+		if strings.HasSuffix(ifc.T.String(), "strings.Builder") {
+			vm.curBuilder = ifc.V
+			return "builder"
 		}
 		return vm.fileKind(ifc.V)
 	}
